@@ -109,13 +109,19 @@ from musicxml.parser.parser import parse_musicxml  # noqa
 NONASCII = 'Pärt ♯ \U0001d11e'
 
 
+class BadStr(str):
+    """a str the library validates like any other, whose conversion to text fails: a fault at serialisation time"""
+    def __str__(self):
+        raise RuntimeError('serialisation fault injected by the harness')
+
+
 def build(fail):
     """a small valid score with non-ASCII text; fail = k removes what node k needs (0: nothing)"""
     s = XMLScorePartwise(version='4.0')
     pl = XMLPartList()
     sp = XMLScorePart(id='P1') if fail != 3 else XMLScorePart()
     if fail != 4:
-        sp.add_child(XMLPartName(NONASCII))
+        sp.add_child(XMLPartName(BadStr(NONASCII) if fail == 11 else NONASCII))
     if fail != 2:
         pl.add_child(sp)
     if fail != 1:
@@ -138,7 +144,7 @@ def build(fail):
     return s
 
 
-NFAULTS = 10
+NFAULTS = 11     # 1..10: a node fails its final check; 11: every check passes but producing the text raises
 DECL = '<?xml version="1.0" encoding="UTF-8" standalone="no"?>\n'
 scen = json.load(_orig_open(scen_path))
 os.makedirs(workdir, exist_ok=True)
@@ -162,13 +168,17 @@ for k, sc in enumerate(scen):
     before = state(path)
     del effects[:]
     TARGET[0] = path
-    orig_ts = XMLScorePartwise.to_string
     depth = [0]
 
-    def traced(self, *a, **kw):
+    # the final checks and the construction of the text are observed on the root element (outermost calls only)
+    orig_fc = XMLScorePartwise._final_checks
+    orig_cr = XMLScorePartwise._create_et_xml_element
+    cr_done = [False]
+
+    def traced_fc(self, *a, **kw):
         depth[0] += 1
         try:
-            r = orig_ts(self, *a, **kw)
+            r = orig_fc(self, *a, **kw)
             if depth[0] == 1:
                 effects.append('validate')
             return r
@@ -178,11 +188,26 @@ for k, sc in enumerate(scen):
             raise
         finally:
             depth[0] -= 1
-    XMLScorePartwise.to_string = traced
+
+    def traced_cr(self, *a, **kw):
+        try:
+            r = orig_cr(self, *a, **kw)
+            if not cr_done[0]:
+                effects.append('serialise')
+                cr_done[0] = True
+            return r
+        except Exception:
+            if not cr_done[0]:
+                effects.append('serialise-raise')
+                cr_done[0] = True
+            raise
+    XMLScorePartwise._final_checks = traced_fc
+    XMLScorePartwise._create_et_xml_element = traced_cr
     try:
         res, _ = call(lambda: doc.write(path, intelligent_choice=sc['ic']))
     finally:
-        XMLScorePartwise.to_string = orig_ts
+        XMLScorePartwise._final_checks = orig_fc
+        XMLScorePartwise._create_et_xml_element = orig_cr
         TARGET[0] = None
     after = state(path)
     # a FileProxy used as context manager reports close twice when close() is also called: keep one
